@@ -25,6 +25,7 @@ HDR = ("From Coq Require Import ZArith QArith List Bool.\n"
        "Import ListNotations.\n")
 TARGETS = ["theories/Compose/ChainLocalityExec.vo"]
 CASE_T = "pair_case"
+HIST_LEN = 5      # std adaptation every 5 calls of a sampler: many adaptations within a short chain
 
 
 class Forced:
@@ -144,7 +145,8 @@ def forced_run(model, cfg, df, algo, n_iter, seed, salt):
         with contextlib.redirect_stdout(io.StringIO()), contextlib.redirect_stderr(io.StringIO()):
             data = synth.make_data(df, cfg[0])
             with Forced(salt) as rec:
-                ip = model.personalize(data, algo, seed=seed, n_iter=n_iter, progress_bar=False)
+                ip = model.personalize(data, algo, seed=seed, n_iter=n_iter, progress_bar=False,
+                                       sampler_ind_params=dict(acceptation_history_length=HIST_LEN))
     out = ip.to_dataframe()
     rec.result = {str(i): [float(x) for x in out.loc[i].values] for i in out.index}
     return rec
